@@ -124,7 +124,9 @@ def cases(rng, tier):
     cs = []
     n = 150 if tier == "quick" else 2500
     for _ in range(n):
-        addrs = [(1, rng.randint(2, 250)) for _ in range(3)] + [(2, rng.randint(1, 9)) for _ in range(2)]
+        # IPv4, IPv6 and (ids from 2^32) IPv4-mapped IPv6 remote addresses, incl. a mapped one and its plain IPv4 twin
+        n4 = rng.randint(2, 250)
+        addrs = [(1, rng.randint(2, 250)) for _ in range(2)] + [(1, n4), (2, (1 << 32) + n4)] + [(2, rng.randint(1, 9)) for _ in range(2)]
         ops = []
         served = False
         for _ in range(rng.randint(4, 30)):
